@@ -394,6 +394,24 @@ pub fn family(tier: Tier) -> Vec<Spec> {
             }
         }
     }
+    // the same with DEFAULT priorities only: a chain a+, aa+, aaa+, ... has pairwise different
+    // default priorities and every member matches the token a^n, which outranks them all
+    for n in 5..=nmax {
+        let chain: Vec<String> = (1..n).map(|i| format!("{}+", "a".repeat(i))).collect();
+        for r in 0..n {
+            for rev in [false, true] {
+                let mut pats: Vec<Pat> = chain.iter().map(|p| Pat::regex(p)).collect();
+                if rev {
+                    pats.reverse();
+                }
+                pats.insert(r, Pat::token(&"a".repeat(n)));
+                specs.push(Spec::new(true, pats.clone()));
+                if r == n - 1 {
+                    specs.push(Spec::new(false, pats));
+                }
+            }
+        }
+    }
     // patterns that can match invalid UTF-8 must be rejected in str mode in EVERY form
     for p in byte_patterns() {
         specs.push(Spec::new(true, vec![p.clone()]));
